@@ -1,7 +1,7 @@
 //! C04: no lost updates — two committed transactions never both modify the same row.
 //!
-//! Interpreter of the C04 op lines against the REAL lance code: one `memory://` table (c0 = unique key, c1 = v) of up to
-//! three fragments, three `Dataset` handles that go stale on purpose.  A row-modifying transaction is BUILT by the real
+//! Interpreter of the C04 op lines against the REAL lance code: one `memory://` table (c0 = unique key, c1 = v, c2 = 7 - a
+//! column that only exists so that (c0, c1) is a partial schema; rows inserted by `pmrg` have c2 = NULL) of up to three fragments, three `Dataset` handles that go stale on purpose.  A row-modifying transaction is BUILT by the real
 //! writer (`DeleteBuilder`, `UpdateBuilder`, `MergeInsertBuilder`, or the older `FileFragment::delete` + `CommitBuilder`
 //! route) from the version its handle is at and COMMITTED on whatever the latest version is then: `TransactionRebase::
 //! check_txn` against every transaction in between, `finish_delete_update` (row-level rebase by `affected_rows`),
@@ -14,6 +14,8 @@
 //! <h> del  r=<0|d> <keys>            DeleteBuilder  "c0 IN (keys)"
 //! <h> upd  r=<0|d> <keys>            UpdateBuilder  set c1 = c1 + 100 where c0 IN (keys)            (Update / RewriteRows)
 //! <h> mrg  r=<0|d> <rows>            merge_insert on c0: matched -> UpdateAll, not matched -> InsertAll (Update / RewriteRows)
+//! <h> pmrg r=<0|d> <rows>            the same with a PARTIAL source schema (c0, c1): matched rows are rewritten in place
+//!                                    (Update / RewriteColumns: a new data file per touched fragment, no affected_rows)
 //! <h> fdel a=<0|1> <keys>            older writer: FileFragment::delete per fragment -> Operation::Delete -> CommitBuilder,
 //!                                    with (a=1) or without (a=0) affected_rows
 //! <h> mrgu a=<0|1> <rows>            merge_insert execute_uncommitted -> CommitBuilder with / without its affected_rows
@@ -66,6 +68,7 @@ enum Act {
     Del { retry: bool, keys: Vec<i64> },
     Upd { retry: bool, keys: Vec<i64> },
     Mrg { retry: bool, rows: Vec<KV> },
+    PMrg { retry: bool, rows: Vec<KV> },
     FDel { aff: bool, keys: Vec<i64> },
     MrgU { aff: bool, rows: Vec<KV> },
     Compact,
@@ -162,6 +165,7 @@ fn parse_op(line: &str) -> Option<Op> {
                 "del" => Act::Del { retry: flag(fl, "r=", "d", "0")?, keys: parse_keys(arg)? },
                 "upd" => Act::Upd { retry: flag(fl, "r=", "d", "0")?, keys: parse_keys(arg)? },
                 "mrg" => Act::Mrg { retry: flag(fl, "r=", "d", "0")?, rows: parse_kvs(arg)? },
+                "pmrg" => Act::PMrg { retry: flag(fl, "r=", "d", "0")?, rows: parse_kvs(arg)? },
                 "fdel" => Act::FDel { aff: flag(fl, "a=", "1", "0")?, keys: parse_keys(arg)? },
                 "mrgu" => Act::MrgU { aff: flag(fl, "a=", "1", "0")?, rows: parse_kvs(arg)? },
                 _ => return None,
@@ -177,6 +181,7 @@ fn act_name(a: &Act) -> &'static str {
         Act::Del { .. } => "del",
         Act::Upd { .. } => "upd",
         Act::Mrg { .. } => "mrg",
+        Act::PMrg { .. } => "pmrg",
         Act::FDel { .. } => "fdel",
         Act::MrgU { .. } => "mrgu",
         Act::Compact => "compact",
@@ -209,7 +214,7 @@ fn effect(at: &[KV], act: &Act) -> Effect {
             killed: keys.iter().copied().filter(|k| has(*k)).collect(),
             written: at.iter().filter(|r| keys.contains(&r.0)).map(|r| (r.0, r.1 + 100)).collect(),
         },
-        Act::Mrg { rows, .. } | Act::MrgU { rows, .. } => {
+        Act::Mrg { rows, .. } | Act::MrgU { rows, .. } | Act::PMrg { rows, .. } => {
             let mut written = vec![];
             for (k, v) in rows {
                 let n = at.iter().filter(|r| r.0 == *k).count().max(1);
@@ -232,7 +237,7 @@ fn apply(e: &Effect, latest: &[KV]) -> Vec<KV> {
 
 impl C04 {
     fn spec() -> SchemaSpec {
-        SchemaSpec::ints(2)
+        SchemaSpec::ints(3)
     }
 
     fn fresh_session(&mut self) {
@@ -247,7 +252,7 @@ impl C04 {
         let mut scan: Vec<KV> = vec![];
         let mut live: BTreeMap<u64, Vec<i64>> = BTreeMap::new();
         for r in rows.iter() {
-            let (Some(k), Some(v), Some(a)) = (r[0], r[1], r[2]) else {
+            let (Some(k), Some(v), Some(a)) = (r[0], r[1], r[3]) else {
                 return Err(KitError::other("NULL cell in a C04 table"));
             };
             scan.push((k, v));
@@ -269,6 +274,13 @@ impl C04 {
 
     fn reader(rows: &[KV]) -> RecordBatchIterator<std::vec::IntoIter<Result<arrow_array::RecordBatch, arrow_schema::ArrowError>>> {
         let spec = Self::spec();
+        let rs: Vec<Row> = rows.iter().map(|(k, v)| vec![Some(*k), Some(*v), Some(7)]).collect();
+        RecordBatchIterator::new(vec![Ok(spec.batch(&rs))].into_iter(), spec.arrow_schema())
+    }
+
+    /// a source with the partial schema (c0, c1)
+    fn reader_partial(rows: &[KV]) -> RecordBatchIterator<std::vec::IntoIter<Result<arrow_array::RecordBatch, arrow_schema::ArrowError>>> {
+        let spec = SchemaSpec::ints(2);
         let rs: Vec<Row> = rows.iter().map(|(k, v)| vec![Some(*k), Some(*v)]).collect();
         RecordBatchIterator::new(vec![Ok(spec.batch(&rs))].into_iter(), spec.arrow_schema())
     }
@@ -311,6 +323,15 @@ impl C04 {
                 let (d, _stats) = kit.lance_call("merge_insert", job.execute_reader(Box::new(Self::reader(rows))))?;
                 Ok(Some(d.as_ref().clone()))
             }
+            Act::PMrg { retry, rows } => {
+                let mut mb = Self::merge_builder(h)?;
+                if !*retry {
+                    mb.conflict_retries(0);
+                }
+                let job = mb.try_build()?;
+                let (d, _stats) = kit.lance_call("merge_insert partial", job.execute_reader(Box::new(Self::reader_partial(rows))))?;
+                Ok(Some(d.as_ref().clone()))
+            }
             Act::MrgU { aff, rows } => {
                 let mut mb = Self::merge_builder(h)?;
                 let job = mb.try_build()?;
@@ -343,7 +364,7 @@ impl C04 {
                 let spec = Self::spec();
                 let rows = kit.scan(h, &spec, &ScanOpts { ordered: true, with_row_addr: true, ..Default::default() })?;
                 let addrs: Vec<u64> =
-                    rows.iter().filter(|r| r[0].map(|k| keys.contains(&k)).unwrap_or(false)).filter_map(|r| r[2].map(|a| a as u64)).collect();
+                    rows.iter().filter(|r| r[0].map(|k| keys.contains(&k)).unwrap_or(false)).filter_map(|r| r[3].map(|a| a as u64)).collect();
                 let op = Operation::Delete { updated_fragments: updated, deleted_fragment_ids: removed, predicate: pred };
                 let txn = Transaction::new(h.manifest().version, op, None);
                 let mut cb = CommitBuilder::new(Arc::new(h.clone()));
@@ -422,7 +443,7 @@ impl Sim {
             }
             rows
         };
-        match rng.below(20) {
+        match rng.below(22) {
             0..=5 => Act::Del { retry, keys },
             6..=11 => Act::Upd { retry, keys },
             12..=15 => {
@@ -430,6 +451,10 @@ impl Sim {
                 Act::Mrg { retry, rows }
             }
             16..=17 => Act::FDel { aff: rng.chance(1, 2), keys },
+            18..=19 => {
+                let rows = src(self, rng, &keys);
+                Act::PMrg { retry, rows }
+            }
             _ => {
                 let rows = src(self, rng, &keys);
                 Act::MrgU { aff: rng.chance(2, 3), rows }
@@ -445,6 +470,7 @@ fn show_act(h: usize, a: &Act) -> String {
         Act::Del { retry, keys } => format!("{h} del r={} {}", r(retry), show_keys(keys)),
         Act::Upd { retry, keys } => format!("{h} upd r={} {}", r(retry), show_keys(keys)),
         Act::Mrg { retry, rows } => format!("{h} mrg r={} {}", r(retry), show_kvs(rows)),
+        Act::PMrg { retry, rows } => format!("{h} pmrg r={} {}", r(retry), show_kvs(rows)),
         Act::FDel { aff, keys } => format!("{h} fdel a={} {}", f(aff), show_keys(keys)),
         Act::MrgU { aff, rows } => format!("{h} mrgu a={} {}", f(aff), show_kvs(rows)),
         Act::Compact => "compact".into(),
@@ -568,7 +594,7 @@ impl Prop for C04 {
                         continue;
                     }
                     let spec = Self::spec();
-                    let rs: Vec<Row> = rows.iter().map(|(k, v)| vec![Some(*k), Some(*v)]).collect();
+                    let rs: Vec<Row> = rows.iter().map(|(k, v)| vec![Some(*k), Some(*v), Some(7)]).collect();
                     let knobs = Knobs { max_rows_per_file: Some(f), stable_row_ids: stable, ..Default::default() };
                     match self.kit.create(&uri, &spec, &[rs], &knobs) {
                         Ok(d) => {
@@ -621,7 +647,7 @@ impl Prop for C04 {
             // ---- interpreter-level rejections (identical in the Lean driver)
             let bad_keys = match &act {
                 Act::Del { keys, .. } | Act::Upd { keys, .. } | Act::FDel { keys, .. } => keys.is_empty() || !distinct(keys.iter().copied()),
-                Act::Mrg { rows, .. } | Act::MrgU { rows, .. } => rows.is_empty() || !distinct(rows.iter().map(|r| r.0)),
+                Act::Mrg { rows, .. } | Act::MrgU { rows, .. } | Act::PMrg { rows, .. } => rows.is_empty() || !distinct(rows.iter().map(|r| r.0)),
                 Act::Compact => false,
             };
             if bad_keys {
@@ -632,7 +658,10 @@ impl Prop for C04 {
             res.tags.push(format!("op:{name}"));
             let read_version = if matches!(act, Act::Compact) { seen_version } else { handle.manifest().version };
             let stale = read_version < seen_version;
-            let retrying = matches!(act, Act::Del { retry: true, .. } | Act::Upd { retry: true, .. } | Act::Mrg { retry: true, .. });
+            let retrying = matches!(
+                act,
+                Act::Del { retry: true, .. } | Act::Upd { retry: true, .. } | Act::Mrg { retry: true, .. } | Act::PMrg { retry: true, .. }
+            );
             let before = snaps.get(&seen_version).cloned();
             let at_read = snaps.get(&read_version).cloned();
             // ---- run on the real code
@@ -785,8 +814,8 @@ impl Prop for C04 {
          aimed at the same fragment (whole fragment / one row / random subset / rows of two fragments / a missing key), raw \
          verdicts preferred (retries off 4 in 5); odd cases: 3-6 transactions over the handles with re-opening and compaction \
          in between, retries on/off evenly. Kinds: delete 30%, update v+100 30%, merge_insert upsert (1 in 3 with a fresh key) \
-         20%, FileFragment::delete + CommitBuilder with/without affected_rows 10%, merge_insert execute_uncommitted + \
-         CommitBuilder with/without affected_rows 10%. 1 in 9 cases gets a malformed line. After every step the result class, \
+         18%, the same with a partial source schema (RewriteColumns) 9%, FileFragment::delete + CommitBuilder with/without \
+         affected_rows 9%, merge_insert execute_uncommitted + CommitBuilder with/without affected_rows 9%. 1 in 9 cases gets a malformed line. After every step the result class, \
          version, fragments (physical rows, deleted count, live keys) and the sorted scan are compared with the model; the \
          Rust-side oracle checks disjointness of the modified keys of committed transactions, single visibility of every key, \
          no resurrection, failed = no effect, loser = retryable. Non-trivial = a stale transaction committed or a conflict \
